@@ -68,7 +68,7 @@ func replayViewsMain(args []string) {
 		}
 		dates := make(chan time.Time, nd)
 		for i := 0; i < nd; i++ {
-			dates <- time.Date(2021, 3, 1+i, 0, 0, 0, 0, time.UTC)
+			dates <- viewsDate(i)
 		}
 		close(dates)
 		r := helper.NewReport("t", dates)
@@ -141,7 +141,7 @@ func replayViewsMain(args []string) {
 				wd.Declared = append(wd.Declared, d.Type+"/"+label+"/"+d.Role)
 			}
 			for ri, row := range c.Doc.Rows {
-				cells := []string{time.Date(2021, 3, 1+ri, 0, 0, 0, 0, time.UTC).Format(r.DateFormat)}
+				cells := []string{viewsDate(ri).Format(r.DateFormat)}
 				for _, cell := range row {
 					col, k := cell[0], cell[1]
 					if kinds[col-1] == "ann" {
@@ -163,6 +163,14 @@ func replayViewsMain(args []string) {
 	}
 	b, _ := json.Marshal(map[string]any{"histories": n, "rendered": rendered, "mismatches": mm})
 	fmt.Println(string(b))
+}
+
+// the date of row i; the second one is the zero time (a date like any other: it, too, gets its row)
+func viewsDate(i int) time.Time {
+	if i == 1 {
+		return time.Time{}
+	}
+	return time.Date(2021, 3, 1+i, 0, 0, 0, 0, time.UTC)
 }
 
 // the annotation of column col at position k: every second one is empty (rendered as null)
